@@ -138,6 +138,9 @@ func generate(cfg *hx.Config) []hx.Case {
 			if in[3] != "b0" {
 				cfg.Count("banner>0")
 			}
+			if len(in) > 4 && in[4][0] == 'G' {
+				cfg.Count("previous-exchange-on-connection")
+			}
 			if l := in[len(in)-1]; l == "Pq" || l == "Pr" {
 				cfg.Count("post-mortem-probe")
 			}
@@ -276,6 +279,43 @@ func generate(cfg *hx.Config) []hx.Case {
 	}
 	for _, d := range []string{"407b", "403c", "502n", "302c", "500b", "404n", "503c"} {
 		add("down", []string{"DOWN", d})
+	}
+
+	// 1f. state of a PREVIOUS exchange on the same kept-alive client connection must not reach
+	// the tunnel: plain proxy exchanges (matching the shaped URL, different lengths, all ending
+	// short of the shape's action) before the CONNECT, on plain, wrapped and traffic-shaped
+	// listeners whose close_connections offset falls inside the tunnel's byte range
+	for _, v := range []string{"D", "M"} {
+		for _, lk := range []string{"", "+w", "+t100", "+t2000", "+t4096", "+t9000"} {
+			lim := 1 << 30
+			if strings.HasPrefix(lk, "+t") {
+				fmt.Sscanf(lk[2:], "%d", &lim)
+			}
+			for _, pre := range [][]int{{0}, {1}, {99}, {1500}, {1862}, {1999}, {100, 1500}, {4000, 95, 1}, {8999}} {
+				ok := true
+				var toks []string
+				for _, n := range pre {
+					ok = ok && n < lim
+					toks = append(toks, fmt.Sprintf("G%d", n))
+				}
+				if !ok {
+					continue
+				}
+				in := append([]string{"TUN", v + lk, "e0", "b0"}, toks...)
+				add("prev", append(append([]string{}, in...), "c5/t6", "c/t8192", "c8192/t", "ch/t", "c/t4097h"))
+				in[2] = "e10"
+				add("prev", append(append([]string{}, in...), "c1/t12000h"))
+			}
+		}
+	}
+
+	// 1g. an end keeps streaming while its peer aborts: its write must fail (the proxy closes
+	// the connection it holds to it) — with the release of the dialled connection recorded
+	for _, v := range []string{"D", "M", "F"} {
+		for _, lk := range []string{"", "+s", "+w"} {
+			add("strm", []string{"TUN", v + lk, "e0", "b0", "c5/t6", "ca/tS"})
+			add("strm", []string{"TUN", v + lk, "e1", "b7", "c5/t6", "cS/ta"})
+		}
 	}
 
 	// 2. early data / banner boundaries around the 4096-byte bufio buffers
